@@ -133,6 +133,15 @@ CONTRACTS.update({
             ("graphics_before_loops", "(OtherNode('Graphics'), OtherNode('StartLoop')) in self.graph.g_edges "
                                       "and (OtherNode('Output'), OtherNode('Graphics')) in self.graph.g_edges"),
             ("only_adds_edges", "all(e in self.graph.g_edges for e in old(self.graph.g_edges))"),
+            # metrics mode: collection is opened between StartLoop and the first loop / body node and closed after
+            # the last EndLoop, before the footer; the dump follows the footer (C12)
+            ("metrics_bracket",
+             "implies(self.metrics is not None, "
+             "  (OtherNode('StartLoop'), MetricsNode('Start')) in self.graph.g_edges and "
+             "  (MetricsNode('Start'), result[1]) in self.graph.g_edges and "
+             "  (result[len(result) - 2], MetricsNode('End')) in self.graph.g_edges and "
+             "  (MetricsNode('End'), OtherNode('Footer')) in self.graph.g_edges and "
+             "  (OtherNode('Footer'), MetricsNode('Dump')) in self.graph.g_edges)"),
         ],
         loops={
             0: dict(idx="k0", inv=[("prefix", "len(chain) == 1 + k0 and chain[0] == OtherNode('StartLoop') and "
@@ -149,6 +158,8 @@ CONTRACTS.update({
             4: dict(idx="k4", modifies=["metrics_chain[]"], inv=[]),
             5: dict(idx="k5", modifies=["self.graph.g_edges[]"],
                     inv=[("j", "0 <= j and j <= 1"),
+                         ("collection_opened", "(OtherNode('StartLoop'), MetricsNode('Start')) in self.graph.g_edges and "
+                                               "(MetricsNode('Start'), chain[1]) in self.graph.g_edges"),
                          ("chain_edges_kept", "all((chain[t], chain[t + 1]) in self.graph.g_edges for t in range(len(chain) - 1))"),
                          ("graphics_kept", "(OtherNode('Graphics'), OtherNode('StartLoop')) in self.graph.g_edges "
                                            "and (OtherNode('Output'), OtherNode('Graphics')) in self.graph.g_edges"),
